@@ -397,11 +397,9 @@ impl Drop for ThreadPool {
         #[cfg(humphrey_verif)]
         verif_trace::push(verif_trace::Event::DropBegin);
 
-        if let Some(mut recovery_thread) = self.recovery_thread.take() {
-            if let Some(thread) = recovery_thread.0.take() {
-                thread.join().unwrap();
-            }
-        }
+        // Detach the recovery thread, as `stop` does. It owns a `Sender` of its own channel (to hand clones to
+        // restarted workers) and so never finishes: joining it blocked `drop` forever unless `stop` had been called.
+        self.recovery_thread = None;
 
         for thread in &mut *self.threads.lock().unwrap() {
             if let Some(thread) = thread.os_thread.take() {
